@@ -143,11 +143,28 @@ PROPS["C10"] = {
     "assumptions": ["optimality against ALL conformant encodings is decided only for inputs <= 40 bytes; longer inputs only against the two closed forms"],
 }
 
+PROPS["C18"] = {
+    "level_text": "Trace_Plan: every (Plan, Encode) pair of calls is judged by TLC: plan present whenever encoding succeeds; plan modes within the enabled set, positions non-increasing ending at 0; the reader of Stream.tla is stepped over the encoder's stream and the latches it sees must equal the plan's non-ASCII segments with at least one character; the encoder's symbol must not exceed the first listed symbol holding ceil(cost) codewords, where cost is read from the planner hook.",
+    "level_note": "Trusts: planner hook reports the cost of the plan optimize() selected (cfg datamatrix_verif); Stream.tla reader.",
+    "jobs": [{"family": "plan", "spec": "Trace_Plan", "focus": "C18", "coverage": True}],
+    "rule": "one case = (input, list, modes) -> encodation_plan and encode_data (macros off); class-alphabet strings to length 3, boundary strings per class x tail (the end-of-data shapes), class pairs, random runs to 500 bytes; non-trivial = plan returned; distinct = (input, modes, list)",
+    "assumptions": [],
+}
+PROPS["C19"] = {
+    "level_text": "Design: MC_Planner model-checks the frontier machine of Planner.tla (steps bounded by a constant per iteration, |alive| <= |modes|^2). Implementation: Trace_Planner validates the hook's per-iteration events against that machine with 6 modes: every live plan steps exactly once, <= 1 switch call per plan, <= 5 spawned per call, no duplicate (start,current) pair after pruning, <= 36 alive, cumulative candidate steps <= 216 (it+1) + 6; wall time per call <= 10 s and a 20 s watchdog; a step budget in the hook stops exponential planners.",
+    "level_note": "Trusts: the hook counts (cfg datamatrix_verif) are taken inside optimize() at the pruning point.",
+    "mc": ["MC_Planner"],
+    "jobs": [{"family": "plan", "spec": "Trace_Planner", "focus": "C19", "coverage": True}],
+    "rule": "one case = one optimize() call on an adversarial input: 20 alternation patterns at lengths 1..3000 (thorough ..3200) x {default, smallest, largest singleton, all} lists x mode sets, random strings over the class alphabet and random runs; recorded in chunks of 150 iterations; non-trivial = every chunk; distinct = (case, chunk)",
+    "assumptions": ["non-termination is observed as watchdog expiry / step budget, not proved impossible"],
+}
+
 MC = {
     "MC_Codec": {"spec": "MC_Codec", "must_take": ["Write", "StartRead", "Read"], "timeout": 1800},
+    "MC_Planner": {"spec": "MC_Planner", "must_take": ["PIterate"], "timeout": 600},
     "MC_Placement": {"spec": "MC_Placement", "must_take": ["Statement"], "timeout": 900},
 }
-HOOK_COMMITS = []
+HOOK_COMMITS = ["d90b018"]
 SETUP_MC = []
 NOT_YET = {}
 
@@ -233,6 +250,21 @@ def account(pid, fam, case, verdict, ev):
         ev["nontrivial"].add(hash(json.dumps([{k: v for k, v in e.items() if k in ("ev", "names", "lo", "hi", "n", "name", "size")} for e in case["events"]])))
         for e in case["events"]:
             ev["notes"]["event_" + e["ev"]] += 1
+    elif fam == "plan":
+        if "part" in case:
+            ev["nontrivial"].add(case["id"])
+            ev["x_iterations_validated"] = ev.get("x_iterations_validated", 0) + len(case["events"])
+            ev["x_max_input_len"] = max(ev.get("x_max_input_len", 0), case["n"])
+            ev["x_max_steps_seen"] = max(ev.get("x_max_steps_seen", 0), verdict.get("steps", 0))
+        else:
+            key = (tuple(case["input"]), case["modes"], tuple(case["list"]))
+            kind = case["events"][0]["res"].get("kind")
+            ev["notes"]["plan_" + str(kind)] += 1
+            ev["notes"]["encode_" + str(case["events"][1]["res"].get("kind"))] += 1
+            if kind == "Some":
+                ev["nontrivial"].add(hash(key))
+            for m in set(verdict.get("latches", [])):
+                ev["notes"]["streams_latching_" + m] += 1
     elif fam == "place":
         ev["nontrivial"].add(case["id"])
         ev["x_events_validated"] = ev.get("x_events_validated", 0) + len(case["events"])
